@@ -770,6 +770,7 @@ type sxRun struct {
 	err     bool // the function returned a non-nil error (or panicked): a rejecting run
 	notes   map[string]bool
 	facts   []loopFact
+	written []string // heap paths stored to during the run
 }
 
 type sxOutcome struct {
@@ -830,6 +831,10 @@ func sxExplore(p *Program, fn *ssa.Function, mkArgs func(s *sx) []SV, maxRuns in
 			return
 		}
 		r := sxRun{assume: j.assume, order: j.order, stream: s.stream, results: results, notes: s.notes, facts: s.facts}
+		for k := range s.heap {
+			r.written = append(r.written, k)
+		}
+		sort.Strings(r.written)
 		if isErr {
 			r.err = true
 		} else if n := len(results); n > 0 && results[n-1].K == kErr && !results[n-1].Nil {
